@@ -70,13 +70,15 @@ def gen(rnd):
         for _ in range(rnd.randint(1, 2)):
             u, v = rnd.sample(bbs, 2)
             edges.append((u, v))
-    upper = rnd.choice([0.5, 0.6, 0.9, 1.4])
+    upper = rnd.choice([0.5, 0.75, 1.0]) if lattice and rnd.random() < 0.7 else rnd.choice([0.5, 0.6, 0.9, 1.4])
     lower = rnd.choice([0.0, 0.3, 0.5])
     decay = rnd.choice([(0, 0), (0, 1), (6, 1), (6, 2), (2, 3), (3, 0.5), (1, 1.5)])
     if not float(decay[1]).is_integer():
         lower = 0.0
     base = rnd.choice([500, 700, 1000.0])
     fmin = rnd.choice([0, 0, 50, 100, 400])
+    if rnd.random() < 0.06:
+        fmin = base          # the minimum force equals the base constant: nothing exceeds it
     # plant pairs near the cut-off and near the force threshold
     if len(atoms) >= 2 and rnd.random() < 0.5:
         for _ in range(rnd.randint(1, 3)):
@@ -182,9 +184,14 @@ def reference(case, positions=None):
                 rej['separation'] += 1
                 continue
             d = math.dist(pos[u], pos[v])
-            if abs(d - case['upper']) <= 1e-9 * case['upper']:
+            exact = float(case['upper'] * 4).is_integer() and all(float(x * 4).is_integer() for q in (u, v) for x in pos[q])
+            if abs(d - case['upper']) <= 1e-9 * case['upper'] and not exact:
+                # (coordinates and cut-off on a 0.25 lattice: the distance computation is exact and "does not exceed" is decided
+                # at equality too)
                 undecided.add(pair)
                 continue
+            if exact and d == case['upper']:
+                rej['exactly_at_upper'] = rej.get('exactly_at_upper', 0) + 1
             if d > case['upper']:
                 rej['distance'] += 1
                 continue
@@ -198,7 +205,8 @@ def reference(case, positions=None):
                 undecided.add(pair)
                 continue
             k = min(k, case['base'])
-            if abs(k - case['fmin']) <= 1e-9 * max(case['base'], 1):
+            if abs(k - case['fmin']) <= 1e-9 * max(case['base'], 1) and not (a_ == 0 or x == 0):
+                # (without decay the constant IS the base constant, no arithmetic involved: "exceeds" is decided at equality)
                 undecided.add(pair)
                 continue
             if not k > case['fmin']:
@@ -382,7 +390,8 @@ def run_case(params):
         nchains = len({a['chain'] for _, a in case['atoms']})
         b.feat({'sel_' + case['sel']: 1, 'dom_' + case['dom']: 1, 'expected_bonds': len(bonds),
                 'rejected_by_domain': rej['domain'], 'rejected_by_separation': rej['separation'],
-                'rejected_by_distance': rej['distance'], 'rejected_by_force': rej['force']})
+                'rejected_by_distance': rej['distance'], 'rejected_by_force': rej['force'],
+                'pairs_exactly_at_upper_cut_off': rej.get('exactly_at_upper', 0)})
         nrej = sum(1 for v in rej.values() if v)
         if (case['sel'] not in ('all', 'bb') or nchains >= 2) and bonds and nrej >= 2:
             b.nontrivial(case, {'n_atoms': len(case['atoms']), 'sel': case['sel'], 'dom': case['dom'], 'sep': case['sep'],
